@@ -189,14 +189,29 @@ def compare(sc, r, model, want_streams=True, want_ops=True, want_log=True):
     if want_ops:
         toks = thread_tokens(r, r.qmap)
         for t in ['main'] + [f'seat{p}' for p in SEATS] + [f'client{p}' for p in SEATS]:
-            exp = [x for x in model[f'X.prog {t}'].split(' ') if x and not x.startswith('e:')]
-            got = toks.get(t, [])
+            # consecutive sends of one thread commute (different channels) or are ordered per channel:
+            # sort maximal runs of sends by channel (stable), so that reordering independent puts is no alarm
+            exp = sort_send_runs([x for x in model[f'X.prog {t}'].split(' ') if x and not x.startswith('e:')])
+            got = sort_send_runs(toks.get(t, []))
             if got != exp:
                 i = next((i for i, (a, b) in enumerate(zip(got, exp)) if a != b), min(len(got), len(exp)))
                 diffs.append({'what': 'thread-ops', 'thread': t, 'index': i,
                               'impl': got[i] if i < len(got) else None, 'model': exp[i] if i < len(exp) else None,
                               'n_impl': len(got), 'n_model': len(exp)})
     return diffs
+
+
+def sort_send_runs(toks):
+    out, run = [], []
+    for t in toks:
+        if t.startswith('s:'):
+            run.append(t)
+        else:
+            out.extend(sorted(run, key=lambda x: x.split(':')[1]))
+            run = []
+            out.append(t)
+    out.extend(sorted(run, key=lambda x: x.split(':')[1]))
+    return out
 
 
 def decode_tok(t):
